@@ -665,6 +665,59 @@ theorem fact_assert_matters :
     obsOf (runY { share with assertDefineFresh := false, assertZeroOnFail := false } G0 St.empty progAssertLoop)
       = ⟨["v5=7 v6=0", "v5=8 v6=0", "v1=s2/2[&8,&8]"], "ok"⟩ := by decide
 
+/-! ### a literal whose operands read the destination -/
+
+/-- **The operands of a composite literal see the OLD value of the destination**: `l = T{…, e_i, …}` where the `e_i` may be
+    fields / elements of `l` itself (directly or through a pointer alias). If the operand expressions, evaluated in the state
+    BEFORE the statement, yield `vs`, and the literal built from them is `v`, then after the statement — as the mechanism
+    executes it — the destination holds exactly `v`. For every destination (variable, field, element, pointee), struct or
+    array literal, positional / keyed / partial / nested (the paths), first or repeated execution. -/
+theorem literal_reads_destination_safe (G : Growth) (st st1 st' : St) (reexec : Bool) (l : LExp) (isStruct : Bool) (zero : Val)
+    (elems : List (Path × RExp)) (d : Loc) (vs : List Val) (v : Val)
+    (hd : resolve st l = .ok d)
+    (he : Spec.evalAll st (elems.map (·.2)) = .ok (vs, st1))
+    (hb : buildLit zero (elems.map (·.1)) vs = .ok v)
+    (hrun : sopY share G reexec st (.complit false l isStruct zero elems) = .ok st') :
+    st'.read d = .ok v := by
+  rw [sopY_spec G st _ reexec] at hrun
+  simp only [Spec.sop, Spec.complit, Bool.false_eq_true, if_false, hd, he, hb, bind, Except.bind] at hrun
+  unfold St.write at hrun
+  cases hw : writeLoc st1.cells d v with
+  | none => simp [hw] at hrun
+  | some cs =>
+    simp only [hw, Except.ok.injEq] at hrun
+    subst hrun
+    simp [St.read, readLoc_writeLoc_same st1.cells cs d v hw]
+
+/-- `p := P{1,2}; q := &p; p = P{p.Y, p.X}; p = P{Y: q.X, X: q.Y}; r := [2]P{p, p}; r[0] = P{r[0].Y, r[1].X}; r = [2]P{r[1], {X: r[0].Y}}` -/
+def progLitSwap : List Op :=
+  [.s (.define 1 (.lit (.str (.cons (.int 1) (.cons (.int 2) .nil))))),
+   .s (.define 2 (.addr (.var 1))),
+   .s (.complit false (.var 1) true (.str (.cons (.int 0) (.cons (.int 0) .nil)))
+        [([0], .load (.field (.var 1) 1)), ([1], .load (.field (.var 1) 0))]),
+   .s (.show [1, 2]),
+   .s (.complit false (.var 1) true (.str (.cons (.int 0) (.cons (.int 0) .nil)))
+        [([1], .load (.field (.var 2) 0)), ([0], .load (.field (.var 2) 1))]),
+   .s (.show [1, 2]),
+   .s (.complit true (.var 3) false (.arr (.cons (.str (.cons (.int 0) (.cons (.int 0) .nil))) (.cons (.str (.cons (.int 0) (.cons (.int 0) .nil))) .nil)))
+        [([0], .load (.var 1)), ([1], .load (.var 1))]),
+   .s (.complit false (.index (.var 3) (.lit 0)) true (.str (.cons (.int 0) (.cons (.int 0) .nil)))
+        [([0], .load (.field (.index (.var 3) (.lit 0)) 1)), ([1], .load (.field (.index (.var 3) (.lit 1)) 0))]),
+   .s (.complit false (.var 3) false (.arr (.cons (.str (.cons (.int 0) (.cons (.int 0) .nil))) (.cons (.str (.cons (.int 0) (.cons (.int 0) .nil))) .nil)))
+        [([0], .load (.index (.var 3) (.lit 1))), ([1, 0], .load (.field (.index (.var 3) (.lit 0)) 1))]),
+   .s (.show [1, 2, 3])]
+
+theorem literal_swap_example :
+    obsOf (runY share G0 St.empty progLitSwap) = ⟨["v1={2,1} v2=&{2,1}", "v1={1,2} v2=&{1,2}", "v1={1,2} v2=&{1,2} v3=[{1,2},{1,0}]"], "ok"⟩ ∧
+    obsOf (Spec.runGo G0 St.empty progLitSwap) = ⟨["v1={2,1} v2=&{2,1}", "v1={1,2} v2=&{1,2}", "v1={1,2} v2=&{1,2} v3=[{1,2},{1,0}]"], "ok"⟩ := by decide
+
+/-- the struct must be built in a temporary: a doComposite that fills the destination variable itself (the seeded change
+    C04-3: `inPlace := n.anc.kind == assignStmt && … len(values) == rt.NumField()`) reads p.X after it has been overwritten —
+    the swap gives {2,2}, the swap back through the alias {2,2} again -/
+theorem fact_structLitInTemp_matters :
+    obsOf (runY { share with structLitInTemp := false } G0 St.empty progLitSwap)
+      = ⟨["v1={2,2} v2=&{2,2}", "v1={2,2} v2=&{2,2}", "v1={2,2} v2=&{2,2} v3=[{2,2},{2,0}]"], "ok"⟩ := by decide
+
 /-! ### the facts matter: with one choice flipped, a program tells the model from the specification
     (what the correspondence run would see after such a change of the source) -/
 
